@@ -627,7 +627,11 @@ impl<T: Storage> RaftCore<T> {
             || m.get_msg_type() == MessageType::MsgRequestVoteResponse
             || m.get_msg_type() == MessageType::MsgRequestPreVoteResponse
         {
-            if m.term == 0 {
+            // A rejected pre-vote carries the term of the rejecting node, which is 0 on a
+            // node that has not seen any term yet.
+            let rejected_pre_vote =
+                m.get_msg_type() == MessageType::MsgRequestPreVoteResponse && m.reject;
+            if m.term == 0 && !rejected_pre_vote {
                 // All {pre-,}campaign messages need to have the term set when
                 // sending.
                 // - MsgVote: m.Term is the term the node is campaigning for,
